@@ -103,11 +103,15 @@ def real_filter2(f, vi, li, falsy=False):
     return fn
 
 
-def real_filter1(f, li, falsy=False):
+def real_filter1(f, li, falsy=False, defaulted=False):
     """filterfunc(edge) for find_links()."""
     if f is None:
         return None
-    fn = lambda e: f(li[id(e)])
+    if defaulted:
+        # a legal one-argument filter that happens to have a second, defaulted positional parameter
+        fn = lambda e, shift=0: f(li[id(e)] + shift)
+    else:
+        fn = lambda e: f(li[id(e)])
     if falsy:
         from eglib import classes as C
 
